@@ -78,9 +78,10 @@ class Sign(Engine):
     def gen_text(self, rng):
         r = rng.random()
         if r < 0.15:
-            return rng.choice(['', ' ', 'a', 'x' * 252, 'y' * 253, 'z' * 300, 'é', '日本語', 'line\nbreak', '\x00', 'Bitcoin Signed Message:\n'])
+            return rng.choice(['', ' ', 'a', 'x' * 252, 'y' * 253, 'z' * 300, 'é', '日本語', 'line\nbreak', '\x00', 'Bitcoin Signed Message:\n',
+                               'cafe\u0301', '\u212b', '\u1100\u1161', 'x' * 250 + 'e\u0301', '\ufb01', '\uff21', '\u1e9b\u0323', 'a\u0308o\u0302', '\r\n', '\ufeffx'])
         n = rng.choice([1, 5, 20, 100, 252, 253, 254, 400])
-        alpha = 'abcdefghijklmnopqrstuvwxyz ABC012.,!?äöüß€日本'
+        alpha = 'abcdefghijklmnopqrstuvwxyz ABC012.,!?äöüß€日本\u0301\u0308\u212b\ufb01\u1161'
         return ''.join(rng.choice(alpha) for _ in range(rng.randint(0, n)))
 
     def gen_plan(self, rng, prop, tier, index):
@@ -550,7 +551,19 @@ class Sign(Engine):
         hts = [a['hashtype']] * nsig
         if a.get('mixed_ht') and nsig > 1:
             hts = [a['mixed_ht'][j % 3] for j in range(nsig)]
-        signers = ks[:nsig] if base == 'multisig' else ks[:1]
+        if base == 'multisig':
+            # any m-subset of the keys, in key order
+            idxs = list(range(len(ks)))
+            r0 = a['edit_seed'][2]
+            chosen = []
+            pool = list(idxs)
+            for j in range(nsig):
+                chosen.append(pool.pop((r0 >> (3 * j)) % len(pool)))
+            signer_idx = sorted(chosen)
+            signers = [ks[j] for j in signer_idx]
+        else:
+            signer_idx = [0]
+            signers = ks[:1]
         det = dict(template=tmpl, hashtype=a['hashtype'], nin=len(tx['vin']), nout=len(tx['vout']))
         # --- signer
         txo = conv.tx_from_spec(tx, a['mutable'])
@@ -633,6 +646,40 @@ class Sign(Engine):
                 ctx.check(ok2, 'C05.uncommitted-same', 'edit %s is outside what hash type 0x%02x commits to, yet verification changed to: %s'
                           % (name, a['hashtype'], why2), edit=re.sub(r'\d+', '', name), why=why2, **det)
                 ctx.fault('edit.uncommitted')
+        # --- multisig: a slot filled with the signature of another key *of the set* (duplicates, wrong order)
+        if base == 'multisig' and len(ks) >= 2:
+            allsigs = {}
+            for j, k in enumerate(ks):
+                self.nonces.queue = [int(a['nonces'][(j + 5) % len(a['nonces'])], 16)]
+                allsigs[j] = k['sec'].sign(RS.legacy_sighash(code, tx, idx, hts[0])) + bytes([hts[0]])
+            r0, r1v = a['edit_seed'][2], a['edit_seed'][3]
+            combos = []
+            nk = len(ks)
+            for t in range(6):
+                combo = [((r0 >> (2 * t)) + (r1v >> (3 * q)) + q * t) % nk for q in range(nsig)]
+                combos.append(combo)
+            if nsig >= 2:
+                combos.append([signer_idx[-1]] * nsig)           # one key's signature in every slot
+                combos.append(list(reversed(signer_idx)))        # right keys, wrong order
+            for combo in combos:
+                # reference CHECKMULTISIG matching: signatures must match distinct keys in key order
+                pos = 0
+                ok_ref = True
+                for sj in combo:
+                    while pos < nk and pos != sj:
+                        pos += 1
+                    if pos >= nk:
+                        ok_ref = False
+                        break
+                    pos += 1
+                ss = self._scriptsig(base, [allsigs[sj] for sj in combo], ks, redeem)
+                ok3, why3 = self._verify(tx, idx, ss, spk, a['mutable'], p2sh)
+                if ok_ref:
+                    ctx.check(ok3, 'C05.accept', '%d-of-%d %s input signed by keys %r (in key order) rejected: %s' % (nsig, nk, tmpl, combo, why3), why=why3, **det)
+                else:
+                    ctx.check(not ok3, 'C05.other-key-fails', '%d-of-%d %s input accepted although slot signatures come from keys %r (a slot is filled by another key of the set)'
+                              % (nsig, nk, tmpl, combo), combo=str(combo), **det)
+                ctx.fault('multisig-slot-reassignment')
         # --- a signature from any other key
         od = int(a['other_secret'], 16)
         if all(od != k['d'] for k in ks):
